@@ -229,6 +229,22 @@ def _run_patterns(desc, fmt, patterns):
                           'observed': [hex(o) if isinstance(o, int) else o for o in obs][:6]}
         for check, detail in fails:
             acc.fail(check, _klass(x, fmt), {'section': 'pattern', 'fmt': fmt, 'bits': x}, detail)
+    # looking at a number (repr / str / format, also of a bound method, as a debugger or a print would) is not an operation:
+    # the decoding of every finite pattern of the shard is repeated afterwards and must still be the platform value
+    if fmt != 'hp' or desc.get('slice', 0) == 0:
+        probe = FPNum(1, fmt)
+        for look in (repr, str, lambda n: format(n), lambda n: repr(n.to_float), lambda n: '%s' % (n,)):
+            _call(look, probe)
+        for x in patterns:
+            if fp.classify(x, fmt)[0] != 'fin':
+                continue
+            v = fp.bits_to_float(x, fmt)
+            ok, f = _call(FPNum(x, fmt).to_float)
+            acc.evals += 1
+            if not ok or not isinstance(f, float) or f != v or math.copysign(1, f) != math.copysign(1, v):
+                acc.fail('FPNum(bits).to_float_after_a_number_was_printed', _klass(x, fmt),
+                         {'section': 'pattern', 'fmt': fmt, 'bits': x, 'after_print': 1},
+                         {'input_bits': hex(x), 'format': fmt, 'got': repr(f), 'expected': repr(v)})
     return acc.result()
 
 
@@ -406,6 +422,16 @@ def arith_checks(a, b):
         yield 'mul(add,sub)', sm.mul(df), (A + B) * (A - B)
         yield 'add(mul(add,sub),mul)', sm.mul(df).add(pr), (A + B) * (A - B) + A * B
         yield 'sub(mul^16,mul)', sq.sub(pr), ex - A * B
+        # operands of different depth: the one with many significant bits is the one whose precision has to be raised
+        p2 = pr.mul(pr)
+        p4 = p2.mul(p2)
+        e4 = (A * B) ** 4
+        yield 'add(mul^4,mul^16)', p4.add(sq), e4 + ex
+        yield 'sub(mul^16,mul^4)', sq.sub(p4), ex - e4
+        yield 'add(mul^4,operand)', p4.add(na), e4 + A
+        # the operands themselves are values, not scratch space: unchanged after having been used (as left operands too)
+        yield 'operand a after use', na, A
+        yield 'operand b after use', nb, B
     if not out:
         try:
             for name, r, exact in chain():
@@ -415,6 +441,11 @@ def arith_checks(a, b):
                     break
         except Exception as e:
             bad('chain', 'raised %r' % (e,), 'exact rational arithmetic')
+        for w, n0, tag in ((a, na, 'a'), (b, nb, 'b')):
+            ok, g = _call(n0.convert, w[0])
+            if not ok or g != w[1]:
+                bad('operand_%s_changed_by_use' % tag, hex(g) if isinstance(g, int) else g, hex(w[1]), note='convert() of the operand after the operations')
+                break
     ok, c = _call(na.compare, nb)
     obs.append(c)
     exp = _sgn(A - B)
